@@ -116,6 +116,10 @@ fn bfs(st: &Stats, name: &str, max_depth: Option<u32>, state_cap: usize) {
         }
         // a level combines all pairs with a new member: refuse levels that are out of proportion (a tree on which
         // every call yields a new representation never closes)
+        if max_depth.is_none() && depth >= 6 {
+            st.cap(&format!("{name}: no fixpoint within 6 levels ({} states): search abandoned", n));
+            break;
+        }
         let planned = (n as u64 * n as u64 - frontier_start as u64 * frontier_start as u64) * 4;
         if planned > 400_000_000 {
             st.cap(&format!("{name}: level {} would need {planned} transitions ({} states): search abandoned", depth + 1, n));
